@@ -181,6 +181,19 @@ fn main() {
                 }
                 return;
             }
+            "--generate-only" => {
+                // vcheck --generate-only <work dir with src/grammar.json> <out name> <merge|nomerge>
+                let work = PathBuf::from(&args[i + 1]);
+                let g = std::fs::read_to_string(work.join("src/grammar.json")).unwrap();
+                let opt = if args.get(i + 3).map(|s| s.as_str()) == Some("nomerge") { tree_sitter_generate::OptLevel::empty() } else { tree_sitter_generate::OptLevel::default() };
+                match vengine::lang::generate_dir(&g, &work, &args[i + 2], opt) {
+                    Ok(_) => std::process::exit(0),
+                    Err(e) => {
+                        eprintln!("{e}");
+                        std::process::exit(3);
+                    }
+                }
+            }
             "--list" => {
                 for c in checks::registry() {
                     println!("{}", c.id());
